@@ -53,6 +53,7 @@ def Statement : Prop :=
 theorem %(pid)s_partial (s : St) (hs : WF %(dev)s.cfg s) (hw : s.waiting = false)
     (mn : Mn) (mo : Mode) (hd : decode .nmos (s.mem s.pc) = some (mn, mo))
     (hproved : s.mem s.pc ∉ unproved)
+    (hdec : (mn = .ADC ∨ mn = .SBC) → flag s.p bitD = false)
     (hjsr : mn = .JSR → NoSelfOverwriteJSR %(dev)s.cfg (afterFetch %(dev)s.cfg %(dev)s.tbl s)) :
     abs (%(dev)s.step s) = Spec.step %(W)d .nmos (abs s) := by
   have hc : IsDev %(dev)s.cfg := %(isdev)s
@@ -71,6 +72,9 @@ theorem %(pid)s_partial (s : St) (hs : WF %(dev)s.cfg s) (hw : s.waiting = false
     for op, mn, mo in NMOS:
         if op in UNPROVED:
             L.append('  · exact absurd (by decide) hproved')
+        elif mn in ('ADC', 'SBC'):
+            L.append('  · exact step_case _ hc _ .nmos s hs hw _ _ _ _ _ hop hd %s.instruct_%02x (H.h%02x _ hc .nmos) (hdec (Or.in%s rfl))'
+                     % (dev, op, op, 'l' if mn == 'ADC' else 'r'))
         elif op == 0x20:
             L.append('  · exact step_case _ hc _ .nmos s hs hw _ _ _ _ _ hop hd %s.instruct_%02x (H.h20 _ hc .nmos) (hjsr rfl)'
                      % (dev, op))
@@ -81,6 +85,11 @@ theorem %(pid)s_partial (s : St) (hs : WF %(dev)s.cfg s) (hw : s.waiting = false
             L.append('  · exact step_case _ hc _ .nmos s hs hw _ _ _ _ (fun _ => True) hop hd %s.instruct_%02x ((H.h%02x _ hc .nmos).toP _) trivial'
                      % (dev, op, op))
     L.append('')
+    if not UNPROVED:
+        L.append('''/-- %(pid)s in full: `unproved` is empty, so the partial theorem is the statement. -/
+theorem %(pid)s_full : Statement := fun s hs hw mn mo hd hdec hjsr =>
+  %(pid)s_partial s hs hw mn mo hd (by simp [unproved]) hdec hjsr
+''' % dict(pid=pid))
     L.append('''/-- Non-vacuity: a concrete well-formed state executing LDA #$80 satisfies every hypothesis. -/
 example : ∃ s : St, WF %(dev)s.cfg s ∧ s.waiting = false ∧
     decode .nmos (s.mem s.pc) = some (.LDA, .imm) ∧ s.mem s.pc ∉ unproved := by
